@@ -97,6 +97,19 @@ def coverage(ctx):
             if isinstance(s, ast.For) and isinstance(s.iter, (ast.Tuple, ast.List)) and all(isinstance(e, ast.Constant) for e in s.iter.elts):
                 if any(isinstance(c, ast.Call) and isinstance(c.func, ast.Name) and c.func.id in ("getattr", "setattr") for c in ast.walk(s)):
                     mult.extend(e.value for e in s.iter.elts)
+        # getattr / setattr idiom (also what a loop over the field names unrolls to): p = getattr(self, "f"); p *= other; setattr(self, "f", p)
+        held = {}
+        for s in stmts_in(fn.body):
+            if isinstance(s, ast.Assign) and isinstance(s.targets[0], ast.Name) and isinstance(s.value, ast.Call) and call_name(s.value) == "getattr" and len(s.value.args) >= 2 \
+                    and isinstance(s.value.args[0], ast.Name) and s.value.args[0].id == "self" and isinstance(s.value.args[1], ast.Constant):
+                held[s.targets[0].id] = [s.value.args[1].value, False]
+            elif isinstance(s, ast.AugAssign) and isinstance(s.op, ast.Mult) and isinstance(s.target, ast.Name) and s.target.id in held and isinstance(s.value, ast.Name) and s.value.id == "other":
+                held[s.target.id][1] = True
+            elif isinstance(s, ast.Expr) and isinstance(s.value, ast.Call) and call_name(s.value) == "setattr" and len(s.value.args) == 3 and isinstance(s.value.args[1], ast.Constant) \
+                    and isinstance(s.value.args[2], ast.Name) and s.value.args[2].id in held:
+                f, done = held[s.value.args[2].id]
+                if f == s.value.args[1].value and done:
+                    mult.append(f)
         ok = sorted(mult) == sorted(fields) and not bad_guard
         ctx.ob("R02.1", "%s.__imul__ (defined in %s)" % (cname, owner), ok,
                "multiplies %s; Point fields %s; %s" % (sorted(mult), sorted(fields), "; ".join(bad_guard)), fn.lineno,
